@@ -205,8 +205,17 @@ def end_to_end(res, n):
             h = rng.choice([0, 1, 1, 2, 3])
             r = rng.choice([1, 2, 3, 5, 5, 6, 7])
             spec = "<start> ::= " + " ".join(f"<b{k}>" for k in range(r)) + "\n<d> ::= 'x' | 'y'\n"
+            # a computed repetition may also be absent from a tree: in an alternative not taken ("alt") or with count 0 ("zero")
+            variants = [rng.choice(["plain", "plain", "alt", "zero"]) if i % 3 else "plain" for _k in range(r)]
             for k in range(r):
-                spec += f"<b{k}> ::= <n{k}> <d>{{int(<n{k}>)}}\n<n{k}> ::= '1' | '2' | '3'\n"
+                if variants[k] == "alt":
+                    spec += f"<b{k}> ::= 'L' <n{k}> <d>{{int(<n{k}>)}} | 'S'\n<n{k}> ::= '1' | '2' | '3'\n"
+                elif variants[k] == "zero":
+                    spec += f"<b{k}> ::= <n{k}> <d>{{int(<n{k}>)}}\n<n{k}> ::= '0' | '0' | '1' | '2'\n"
+                else:
+                    spec += f"<b{k}> ::= <n{k}> <d>{{int(<n{k}>)}}\n<n{k}> ::= '1' | '2' | '3'\n"
+            if any(v != "plain" for v in variants):
+                res.bump("e2e_with_absent_repetitions")
             for j in range(h):
                 spec += f"where len(str(<start>)) >= {rng.randint(0, 3)}\n"
             random.seed(res.seed + i)
@@ -218,9 +227,12 @@ def end_to_end(res, n):
                 while len(seeds) < k_seeds:
                     w = ""
                     for _k in range(r):
-                        nn = rng.randint(1, 3)
-                        w += str(nn) + "".join(rng.choice("xy") for _ in range(nn))
-                    if len(w) >= 3 and w not in seeds:
+                        if variants[_k] == "alt" and rng.random() < 0.5:
+                            w += "S"
+                            continue
+                        nn = rng.randint(0, 2) if variants[_k] == "zero" else rng.randint(1, 3)
+                        w += ("L" if variants[_k] == "alt" else "") + str(nn) + "".join(rng.choice("xy") for _ in range(nn))
+                    if len(w) >= min(3, r) and w not in seeds:
                         seeds.append(w)
                 psize = rng.choice([k_seeds, k_seeds, 3 * k_seeds])
                 kw = dict(desired_solutions=k_seeds + 3, max_generations=6, population_size=psize, initial_population=list(seeds))
